@@ -43,6 +43,7 @@ SUPERCELLS = {
     "nd2": [[0, 1, 1], [1, 0, 1], [1, 1, 0]],
     "nd3": [[-1, 1, 1], [1, -1, 1], [1, 1, -1]],
     "nd4": [[1, 0, 0], [1, 2, 0], [0, 0, 1]],
+    "nd8": [[1, 0, 0], [1, 2, 0], [1, 1, 2]],          # strongly sheared: the Niggli reduction of the supercell lattice combines basis vectors
 }
 
 
